@@ -14,6 +14,14 @@ GOENV.pop("GOTOOLCHAIN", None)
 GOENV.pop("GOSUMDB", None)
 
 
+GO_SPACE = "\t\n\v\f\r \u0085\u00a0\u1680\u2000\u2001\u2002\u2003\u2004\u2005\u2006\u2007\u2008\u2009\u200a\u2028\u2029\u202f\u205f\u3000"
+
+
+def go_trim(s):
+    """strings.TrimSpace: Go's unicode.IsSpace, which (unlike str.strip) does not include U+001C..U+001F"""
+    return s.strip(GO_SPACE)
+
+
 def go_re(rx):
     """compile a regexp of the common RE2 / Python subset with Go's semantics for `$` (end of text only,
     not before a final newline); the generators only use `$` as the end anchor"""
